@@ -41,6 +41,34 @@ def run(cmd, cwd=None, env=None, timeout=None, capture=True):
     return p.returncode, (p.stdout or ""), time.time() - t0
 
 
+def run_watch(cmd, cwd, env, progress_file, stall=240, timeout=3600):
+    """Run a harness in careful mode and watch `<trace>.progress` (the index of the execution in progress): if it
+    does not change for `stall` seconds the execution in progress hangs (returns rc = "hang")."""
+    e = dict(os.environ)
+    e.update(env or {})
+    t0 = time.time()
+    p = subprocess.Popen(cmd, cwd=cwd, env=e, stdout=subprocess.PIPE, stderr=subprocess.STDOUT, text=True)
+    last, since = None, time.time()
+    while True:
+        try:
+            out, _ = p.communicate(timeout=5)
+            return p.returncode, out or "", time.time() - t0
+        except subprocess.TimeoutExpired:
+            pass
+        try:
+            cur = open(progress_file).read()
+        except Exception:
+            cur = None
+        if cur != last:
+            last, since = cur, time.time()
+        if time.time() - since > stall or time.time() - t0 > timeout:
+            p.kill()
+            out, _ = p.communicate()
+            if time.time() - since > stall:
+                return "hang", out or "", time.time() - t0
+            raise ToolError("timeout after %ss: %s" % (timeout, " ".join(cmd[:6])))
+
+
 # ------------------------------------------------------------------------------------------ TLC
 
 def tlc(module, cfg, workdir, workers=4, env=None, timeout=1800, coverage=False, heap="4g", simulate=None):
@@ -199,7 +227,13 @@ class Ctx:
         if getattr(self, "light", 0):
             stim = thin_stimuli(stim, self.light)
         args = ["run", stim, trace] + (extra_args or [])
-        rc, out, dt = run([binpath] + args, cwd=self.work, timeout=timeout)
+        try:
+            # (quick tier: no harness run takes more than a minute or two; a run still going after ten is treated as stuck)
+            rc, out, dt = run([binpath] + args, cwd=self.work, timeout=min(timeout, 600) if self.tier == "quick" else timeout)
+        except ToolError:
+            # The code under test may also never return (e.g. an index that wrapped in a release build): the careful
+            # re-run watches the progress file and attributes a stall of several minutes to the execution in progress.
+            rc, out = "timeout", ""
         if rc == 0:
             return []
         if rc == 2 and "usage" in out:
@@ -209,7 +243,7 @@ class Ctx:
         stimuli = None
         while True:
             env = {"HX_CAREFUL": "1", "HX_FROM": str(start)}
-            rc, out, dt = run([binpath] + args, cwd=self.work, env=env, timeout=timeout)
+            rc, out, dt = run_watch([binpath] + args, self.work, env, trace + ".progress", timeout=2 * timeout)
             if rc == 0:
                 break
             try:
@@ -224,8 +258,9 @@ class Ctx:
             # the crashed execution may have produced several resets (one per storage kind): keep them, they are complete calls
             with open(trace, "w") as f:
                 f.write("".join(l + "\n" for l in lines if l.endswith("}")))
-            crashes.append({"comp": comp, "kind": "crash", "pos": -1,
-                            "event": {"ev": "crash", "exit": rc, "output": out[-300:]}, "exec": stimuli[k]})
+            crashes.append({"comp": comp, "kind": "hang" if rc == "hang" else "crash", "pos": -1,
+                            "event": {"ev": "hang" if rc == "hang" else "crash", "exit": rc, "output": out[-300:]},
+                            "exec": stimuli[k]})
             start = k + 1
             if len(crashes) >= max_crashes or start >= len(stimuli):
                 break
